@@ -30,6 +30,7 @@ type hNode struct {
 	Buflen   int      `json:"buflen,omitempty"`
 	Cap      int      `json:"cap,omitempty"`
 	Broken   bool     `json:"broken,omitempty"` // sqlite: every transaction fails (the inserter sits in its retry back-off)
+	Stalled  bool     `json:"stalled,omitempty"` // sqlite: every BeginTx hangs for 20 s of simulated time while holding the only pooled connection (a disk that does not answer)
 	Bulk     int      `json:"bulk,omitempty"`
 	Children []hNode  `json:"children,omitempty"`
 	Mw       []MwSpec `json:"mw,omitempty"` // wrapped around this node, outermost first
@@ -70,7 +71,12 @@ func genNode(t *rapid.T, depth int) hNode {
 		n.Cap = rapid.IntRange(1, 4).Draw(t, "cap")
 	case "sqlite":
 		n.Bulk = rapid.IntRange(1, 2).Draw(t, "bulk")
-		n.Broken = rapid.IntRange(0, 2).Draw(t, "broken") == 0
+		switch rapid.IntRange(0, 5).Draw(t, "broken") {
+		case 0, 1:
+			n.Broken = true
+		case 2:
+			n.Stalled = true
+		}
 	case "merge":
 		nc := rapid.IntRange(2, 3).Draw(t, "nchildren")
 		for i := 0; i < nc; i++ {
@@ -146,6 +152,7 @@ type c13Env struct {
 	hcancel    context.CancelFunc
 	err        error
 	broken     bool
+	stalled    bool
 	routerBase []int // registry entries (all maps reachable from each router) before the session
 }
 
@@ -178,6 +185,9 @@ func (env *c13Env) build(n *hNode) mocrelay.Handler {
 		env.dbs = append(env.dbs, db)
 		if n.Broken {
 			env.broken = true
+		}
+		if n.Stalled {
+			env.stalled = true
 		}
 		sh, err := mocsqlite.NewSQLiteHandler(env.hctx, db, &mocsqlite.SQLiteHandlerOption{EventBulkInsertNum: max(n.Bulk, 1), EventBulkInsertDur: time.Minute, MaxLimit: mocsqlite.NoLimit})
 		if err != nil {
@@ -348,6 +358,8 @@ func (c13Engine) Exec(t *testing.T, cc any) *simrt.Result {
 	return total
 }
 
+const c13StallFor = 20 * time.Second
+
 func c13Run(t *testing.T, c *C13Case, cut int, mode c13Mode) *simrt.Result {
 	return simrt.Run(t, c.Sched, 800000, func(sim *simrt.Sim) {
 		st := &sim.Res.Stats
@@ -373,6 +385,21 @@ func c13Run(t *testing.T, c *C13Case, cut int, mode c13Mode) *simrt.Result {
 			simrt.SetFaultPlan(plan)
 			plan.Arm()
 			st.Fault("drv-err-persistent")
+			defer simrt.SetFaultPlan(nil)
+		}
+		if env.stalled && !env.broken {
+			// a disk that does not answer: the inserter's BeginTx hangs while it
+			// holds the only pooled connection, so a REQ of the session waits for
+			// the pool when the session is ended
+			plan := &simrt.FaultPlan{Hook: func(n int, what string) error {
+				if what == "begin" {
+					time.Sleep(c13StallFor)
+				}
+				return nil
+			}}
+			simrt.SetFaultPlan(plan)
+			plan.Arm()
+			st.Fault("disk-stall")
 			defer simrt.SetFaultPlan(nil)
 		}
 		base := census()
@@ -423,6 +450,17 @@ func c13Run(t *testing.T, c *C13Case, cut int, mode c13Mode) *simrt.Result {
 			}
 			prompt = time.Duration(nEv+1)*7*time.Second + time.Second
 		}
+		if env.stalled && !env.broken && mode.end == "closerecv" {
+			// likewise: an inbound close is noticed only after the message in
+			// progress got its turn at the stalled disk
+			nEv := 0
+			for i := 0; i < cut; i++ {
+				if c.History[i].T == "EVENT" {
+					nEv++
+				}
+			}
+			prompt = time.Duration(nEv+1)*c13StallFor + time.Second
+		}
 		if !cl.Returned.Load() {
 			sim.Advance(prompt)
 		}
@@ -462,9 +500,13 @@ func c13Run(t *testing.T, c *C13Case, cut int, mode c13Mode) *simrt.Result {
 			}
 		}
 		// handler shutdown: its own goroutines must go too
+		simrt.SetFaultPlan(nil) // the disk answers again
 		env.hcancel()
 		sim.Drive()
 		sim.Advance(4 * time.Second) // SQLite handler: flush with 3s timeout
+		if env.stalled {
+			sim.Advance(c13StallFor + time.Second) // a BeginTx that was already hanging
+		}
 		for _, db := range env.dbs {
 			db.Close()
 		}
